@@ -164,8 +164,21 @@ class Ctx:
             return
         global _PAR
         _PAR = (self, worker)
+        # the thorough tier has an overall wall budget (VERIF_THOROUGH_BUDGET_S, default 2 h per check): jobs that have not
+        # finished by then are recorded as not explored - never as passed
+        deadline = self.t0 + float(os.environ.get('VERIF_THOROUGH_BUDGET_S', '7200')) if self.tier != 'quick' else None
         with mp.get_context('fork').Pool(nproc) as pool:
-            for res in pool.imap_unordered(_par_entry, jobs):
+            it = pool.imap_unordered(_par_entry, jobs); done = 0
+            while done < len(jobs):
+                try:
+                    res = it.next(timeout=None if deadline is None else max(1.0, deadline - time.time()))
+                except StopIteration:
+                    break
+                except mp.TimeoutError:
+                    self.not_explored.append('%d of %d scenario jobs not finished within the thorough wall budget (%s s): %s ...' % (
+                        len(jobs) - done, len(jobs), os.environ.get('VERIF_THOROUGH_BUDGET_S', '7200'), str(jobs[-1])[:120]))
+                    pool.terminate(); break
+                done += 1
                 if 'error' in res:
                     if self.tier != 'quick' and 'memory limit' in res['error']:
                         self.not_explored.append(res['error']); continue
